@@ -27,6 +27,7 @@ MCInvalTable == IF UseImplTable
 VARIABLES S, res, hist, depth
 vars == <<S, res, hist, depth>>
 View == S
+ViewH == <<S, hist>>      \* history-complete exploration (profile "dense"): no two histories are merged
 
 Objs == NodeIds \cup LinkIds
 SingleMut == {<<"add_node", n>> : n \in NodeIds}
@@ -73,6 +74,7 @@ NearCalls == {<<"add_node", n>> : n \in NodeIds}
 
 Calls == CASE Profile = "cache" -> SingleMut \cup ReadCalls \cup ViewCalls \cup BulkCalls \cup FewPaths
            [] Profile = "near" -> NearCalls
+           [] Profile = "dense" -> {<<"add_link", u, l, v>> : u \in NodeIds, l \in LinkIds, v \in NodeIds}
            [] Profile = "ind" -> SingleMut \cup ReadCalls
                                  \cup {<<"add_path", <<u, l, v>>, o, d>> : u \in NodeIds, l \in LinkIds, v \in NodeIds, o \in {"", "o1"}, d \in {"", "d1"}}
                                  \cup {<<"add_links", <<<<u, "l1", v>>, <<v, "l2", u>>>>>> : u \in NodeIds, v \in NodeIds}
